@@ -37,6 +37,18 @@ inline bool completeFrames(const OSnap& o) {
     }
     return true;
 }
+// Stored data that the parameters do not announce: uniform frames whose point / channel count differs from POINT:USED / ANALOG:USED, or filled frames of different shapes. In an alphabet whose frame and column
+// calls all conform (g_conformingCallsOnly, set for 'build'), no caller can produce this: the object is probed although it is not "complete".
+static bool g_conformingCallsOnly = false;
+inline bool countMismatch(const OSnap& o) {
+    if (o.frames.empty()) return false;
+    if (!uniformFrames(o)) { for (auto& f : o.frames) if (f.empty()) return false; return true; }   // frames of different shapes although none is a gap frame
+    int used = pInt(o, "POINT", "USED"), aused = pInt(o, "ANALOG", "USED"); const FrSnap& f = o.frames[0];
+    if (f.pts.size() != (size_t)used) return true;
+    if (!f.subs.empty() && !f.subs[0].empty() && f.subs[0].size() != (size_t)aused) return true;
+    return false;
+}
+inline bool probeWorthy(const OSnap& o) { return completeFrames(o) || (g_conformingCallsOnly && countMismatch(o)); }
 inline std::string featureTags(const OSnap& o) {
     size_t maxDesc = 0; bool char1d = false, char0d = false;
     for (auto& g : o.groups) { maxDesc = std::max(maxDesc, g.desc.size()); for (auto& p : g.params) { maxDesc = std::max(maxDesc, p.desc.size()); if (p.type == ezc3d::DATA_TYPE::CHAR && p.dims.size() == 1) char1d = true; if (p.type == ezc3d::DATA_TYPE::CHAR && p.dims.empty()) char0d = true; } }
@@ -102,7 +114,7 @@ inline void compareContent(const OSnap& a, const OSnap& b, std::vector<std::stri
 struct ProbeStats { size_t probed = 0, skipped = 0; };
 
 inline void probe_C01(World& w, const WSnap& s, Sink& out, ProbeStats& st) {
-    if (!completeFrames(s.o)) { st.skipped++; return; }
+    if (!probeWorthy(s.o)) { st.skipped++; return; }
     st.probed++;
     std::string p = w.path("c01.c3d"); std::string what; freshDestination(p);
     Outcome oc = guarded([&] { w.c->write(p); }, &what);
